@@ -38,8 +38,15 @@ class Payloads:
         return self.d.setdefault(key, len(self.d))
 
 
+# pseudo-pushes whose operand is a hexadecimal number (a data hash, a sub-assembly index): the assembler reads it
+# case-insensitively, so 'ADA3..' and 'ada3..' are the same real value (GASOL re-emits them in lower case)
+HEX_VALUED = {"PUSH data", "PUSH [$]", "PUSH #[$]"}
+
+
 def item_coq(it, pay):
     v = it.get("value")
+    if v is not None and it["name"] in HEX_VALUED:
+        v = str(v).lower()
     return "mkI %s %s %d" % (cstr(it["name"]), "None" if v is None else "(Some %s)" % cstr(v), pay.of(it))
 
 
@@ -117,8 +124,8 @@ def check(run):
     dist = Counter()
     try:
         inputs = sorted(glob.glob(os.path.join(common.REPO, "examples", "jsons-solc", "*.json_solc")), key=os.path.getsize)
-        inputs = inputs[:3 if quick else 14]
-        for k in range(6 if quick else 40):
+        inputs = inputs[:3 if quick else 10]
+        for k in range(6 if quick else 30):
             p = os.path.join(work, "synth%d.json_solc" % k)
             docgen.dump(docgen.document(rng.getrandbits(32), nblocks=rng.randint(3, 10), ncontracts=1 + (k % 3 == 0),
                                         with_noasm=(k % 2 == 0), max_len=18), p)
@@ -128,14 +135,24 @@ def check(run):
              ["-greedy", "-no-simplification"]]
         cases, meta = [], []
         evaluations = 0
+        jobs = []
+        for path in inputs:
+            base = os.path.basename(path).split(".")[0]
+            for oi, opts in enumerate(optsets):
+                d = os.path.join(work, "%s_o%d" % (base, oi))
+                os.makedirs(d)
+                jobs.append((path, tuple(opts), d))
+        from concurrent.futures import ThreadPoolExecutor
+        with ThreadPoolExecutor(max_workers=max(2, min(10, (os.cpu_count() or 4) - 2))) as ex:
+            outs = list(ex.map(lambda j: run_tool([j[0]] + list(j[1]), j[2], timeout=1500), jobs))
+        tool_out = {(j[0], j[1]): o for j, o in zip(jobs, outs)}
         for path in inputs:
             base = os.path.basename(path).split(".")[0]
             with open(path) as fh:
                 din = json.load(fh)
             for oi, opts in enumerate(optsets):
                 d = os.path.join(work, "%s_o%d" % (base, oi))
-                os.makedirs(d)
-                rc, out = run_tool([path] + opts, d)
+                rc, out = tool_out[(path, tuple(opts))]
                 evaluations += 1
                 outf = os.path.join(d, base + "_optimized.json_solc")
                 if rc != 0 or not os.path.exists(outf):
